@@ -505,3 +505,138 @@ def restart_bounded(p):
                 failures.append(dict(history="particles released at 20 min leave the grid before the next record", restart_after_file=b, first=f[0], nfail=len(f)))
         samples.append(dict(scenario="continuous release every 30 min, IBM ages and kills at 40 min, strong flow leaving the grid, scalar forcing temp", restart="from every completed file"))
     return dict(cases=cases, failures=failures[:12], samples=samples, bound=f"{len(combos)} scenario variants x every file boundary")
+
+
+def write_yaml(path, cfg):
+    import yaml
+
+    def plain(x):
+        if isinstance(x, dict):
+            return {k: plain(v) for k, v in x.items() if v is not None or k in ("tracker", "release")}
+        if isinstance(x, (list, tuple)):
+            return [plain(v) for v in x]
+        if isinstance(x, Path):
+            return str(x)
+        if isinstance(x, type):
+            return x.__name__
+        return x
+
+    Path(path).write_text(yaml.safe_dump(plain(cfg), sort_keys=False))
+
+
+def refusals_bounded(p):
+    """C20: every single fault injected into base scenarios must stop with SystemExit during start-up, no record written."""
+    from ladim.configure import configure
+    from ladim.model import Model
+
+    cases, failures, samples = 0, [], []
+    with Scratch() as d:
+        bases = []
+        for rev in (False, True):
+            for files in ([5], [2, 3]):
+                for continuous in (False, True):
+                    bases.append((rev, files, continuous))
+
+        def build(sub, rev, files, continuous, mutate=None, frame_hours=(0, 1, 2, 3, 4)):
+            sub.mkdir(exist_ok=True)
+            write_forcing(sub, frame_hours=frame_hours, files=files, sign=0.2)
+            start, stop = (3.0, 0.5) if rev else (0.5, 3.0)
+            rows = [(iso(start), 4.3, 5.2, 5.0), (iso(2.0), 6.1, 4.4, 30.0)]
+            if rev:
+                rows = sorted(rows, key=lambda r: r[0], reverse=True)
+            kw = dict(continuous=True, freq=1800) if continuous else {}
+            cfg = base_config(sub, start_h=start, stop_h=stop, release_rows=rows, period=1800, reversal=rev, **kw)
+            cfg["version"] = 2
+            if mutate:
+                mutate(cfg, sub)
+            write_yaml(sub / "ladim.yaml", cfg)
+            return sub / "ladim.yaml"
+
+        def attempt(yaml_path, sub):
+            try:
+                config = configure(yaml_path)
+                model = Model(config)
+            except SystemExit:
+                recs = 0
+                for f in sub.glob("out*.nc"):
+                    try:
+                        with Dataset(f) as nc:
+                            recs += len(nc.dimensions["time"])
+                    except Exception:  # noqa: BLE001
+                        pass
+                return "refused", recs
+            except BaseException as e:  # noqa: BLE001
+                return f"crashed with {type(e).__name__}: {str(e)[:80]}", 0
+            try:
+                model.finish()
+            except BaseException:  # noqa: BLE001
+                pass
+            return "started", 0
+
+        def rm(path):
+            def f(cfg, sub):
+                pass
+
+            return f
+
+        faults = {
+            "forcing ends before the window ends": lambda cfg, sub: (write_forcing(sub, frame_hours=(0, 1, 2), files=[3], sign=0.2), [f.unlink() for f in sub.glob("f_00[1-9].nc")]),
+            "forcing starts after the window starts": lambda cfg, sub: ([f.unlink() for f in sub.glob("f_*.nc")], write_forcing(sub, frame_hours=(1, 2, 3, 4), files=[4], sign=0.2)),
+            "forcing frames out of order across files": lambda cfg, sub: ([f.unlink() for f in sub.glob("f_*.nc")], write_forcing(sub, frame_hours=(0, 3, 1, 2, 4), files=[2, 3], sign=0.2)),
+            "forcing frame duplicated across files": lambda cfg, sub: ([f.unlink() for f in sub.glob("f_*.nc")], write_forcing(sub, frame_hours=(0, 1, 2, 2, 3, 4), files=[3, 3], sign=0.2)),
+            "missing start": lambda cfg, sub: cfg["time"].pop("start"),
+            "missing stop": lambda cfg, sub: cfg["time"].pop("stop"),
+            "missing dt": lambda cfg, sub: cfg["time"].pop("dt"),
+            "stop on the wrong side of start": lambda cfg, sub: cfg["time"].update(start=cfg["time"]["stop"], stop=cfg["time"]["start"]),
+            "all release rows after the window": lambda cfg, sub: write_release(sub / "release.rls", [(iso(9), 4.3, 5.2, 5.0)] if not cfg["time"]["time_reversal"] else [(iso(-5), 4.3, 5.2, 5.0)]),
+            "all release rows before the window (discrete)": lambda cfg, sub: (cfg["release"].pop("continuous", None), cfg["release"].pop("release_frequency", None), write_release(sub / "release.rls", [(iso(-5), 4.3, 5.2, 5.0)] if not cfg["time"]["time_reversal"] else [(iso(9), 4.3, 5.2, 5.0)])),
+            "release rows without a position": lambda cfg, sub: write_release(sub / "release.rls", [(cfg["time"]["start"], 5.0)], cols=("release_time", "Z")),
+            "missing release file": lambda cfg, sub: (sub / "release.rls").unlink(),
+            "missing forcing files": lambda cfg, sub: cfg["forcing"].update(filename=str(sub / "nothing_*.nc")),
+            "missing grid file": lambda cfg, sub: cfg["grid"].update(filename=str(sub / "nogrid.nc")),
+            "missing tracker section": lambda cfg, sub: cfg.pop("tracker"),
+            "missing time section": lambda cfg, sub: cfg.pop("time"),
+            "missing release section": lambda cfg, sub: cfg.pop("release"),
+            "missing output section": lambda cfg, sub: cfg.pop("output"),
+            "missing forcing section": lambda cfg, sub: cfg.pop("forcing"),
+            "illegal subgrid (i0 >= i1)": lambda cfg, sub: cfg["grid"].update(subgrid=[6, 3, 2, 8]),
+            "illegal subgrid (beyond the grid)": lambda cfg, sub: cfg["grid"].update(subgrid=[1, 40, 1, 8]),
+            "illegal subgrid (touching the boundary row 0)": lambda cfg, sub: cfg["grid"].update(subgrid=[1, 8, 0, 8]),
+        }
+        for bi, (rev, files, continuous) in enumerate(bases):
+            sub = d / f"base{bi}"
+            cases += 1
+            r, _ = attempt(build(sub, rev, files, continuous), sub)
+            if r != "started":
+                failures.append(dict(base=dict(reversed=rev, files=files, continuous=continuous), fault=None, what=f"valid base scenario was {r}"))
+                continue
+            for name, mut in faults.items():
+                if "discrete" in name and continuous:
+                    pass
+                sub = d / f"b{bi}_{abs(hash(name)) % 10**6}"
+                cases += 1
+                try:
+                    y = build(sub, rev, files, continuous, mutate=mut)
+                except BaseException as e:  # noqa: BLE001
+                    failures.append(dict(fault=name, what=f"harness could not build: {e}"))
+                    continue
+                r, recs = attempt(y, sub)
+                if r != "refused" or recs:
+                    failures.append(dict(base=dict(reversed=rev, files=files, continuous=continuous), fault=name, what=f"{r}; {recs} output records written"))
+        # missing / malformed configuration file
+        for name, content in (("missing configuration file", None), ("malformed YAML", "time: [1, 2\n  x: : :"), ("invalid version", "version: 7\ntime: {}\n")):
+            cases += 1
+            f = d / "cfg_fault.yaml"
+            if content is None:
+                f = d / "does_not_exist.yaml"
+            else:
+                f.write_text(content)
+            try:
+                configure(f)
+                failures.append(dict(fault=name, what="configure returned"))
+            except SystemExit:
+                pass
+            except BaseException as e:  # noqa: BLE001
+                failures.append(dict(fault=name, what=f"crashed with {type(e).__name__}"))
+        samples.append(dict(base="reversed, 2 forcing files, continuous release", faults=list(faults)[:6]))
+    return dict(cases=cases, failures=failures[:15], samples=samples, bound=f"{len(bases)} base scenarios (forward/reversed x single/multi-file x discrete/continuous) x {len(faults)} single faults + 3 configuration-file faults")
